@@ -1,18 +1,43 @@
-"""C05 — forward results of tensor ops match the NumPy/PyTorch definition they mirror (assembled from parts)."""
+"""C05 — forward results of tensor ops match the NumPy/PyTorch definition they mirror.
+
+Assembled from parts (each builds its own Props file and runs its own ties and oracle):
+  constructors            checks/ops_ctor.py     Props/C05_ctor.v
+  view / indexing ops     checks/ops_views.py    Props/C05_views.v      (reshape, flatten, squeeze, unsqueeze, movedim, transpose,
+                                                                         unfold, __getitem__, iteration)
+  arithmetic / reductions checks/ops_algebra.py  Props/C05_algebra.v    (broadcasting, matmul/addmm, sum/mean/max/min, concat/stack/unbind,
+                                                                         operator and reflected-operator forms with Python scalars)
+"""
 import importlib
 
-PARTS = ["checks.ops_ctor", "checks.ops_views", "checks.ops_algebra"]
+PARTS = [("checks.ops_ctor", {}), ("checks.ops_views", {"prop": "C05"}), ("checks.ops_algebra", {"prop": "C05"})]
+
+
+def _parts(ctx=None):
+    for m, kw in PARTS:
+        try:
+            yield importlib.import_module(m), kw
+        except ModuleNotFoundError as ex:
+            if ctx is not None:
+                ctx.notes.append("part %s not available: %s" % (m, ex))
 
 
 def run(ctx):
-    for m in PARTS:
-        try:
-            mod = importlib.import_module(m)
-        except ImportError as ex:
-            ctx.notes.append("part %s not available: %s" % (m, ex))
+    for mod, kw in _parts(ctx):
+        mod.run_part(ctx, **kw)
+
+
+def replay(ctx, data):
+    for mod, kw in _parts():
+        fn = getattr(mod, "replay", None) or getattr(mod, "replay_part", None)
+        if fn is None:
             continue
-        fn = getattr(mod, "run_part_c05", None) or getattr(mod, "run_part")
-        fn(ctx)
+        try:
+            rc = fn(ctx, data)
+        except Exception:
+            continue
+        if rc is not None:
+            return rc
+    return 1
 
 
 FINISH = dict(rule="per part: exhaustive small-rank grids of shapes/arguments (distinct argument tuples; non-trivial = index map is not the identity or call is rejected) plus seeded random cases")
